@@ -29,6 +29,7 @@ type Env struct {
 	builders map[*ssa.Function]*ir.Builder
 	callers  map[*ssa.Function]*callerInfo
 	apiReach map[*ssa.Function]bool
+	keyFns   map[*types.Func]bool // verified name-to-bit functions (namesrep.go)
 }
 
 // callerInfo: who calls a function statically, and whether the function is
